@@ -1,12 +1,13 @@
 import DsdVerif.Driver
 
-partial def loop (h : IO.FS.Stream) (out : IO.FS.Stream) : IO Unit := do
+partial def loop (h : IO.FS.Stream) (out : IO.FS.Stream) (w : Dsd.World) : IO Unit := do
   let line ← h.getLine
   if line.isEmpty then return ()
   let l := if line.back == '\n' then String.ofList line.toList.dropLast else line
-  out.putStrLn (Dsd.Driver.step l)
-  loop h out
+  let (w', r) := Dsd.Driver.stepW w l
+  out.putStrLn r
+  loop h out w'
 
 def main : IO Unit := do
   let out ← IO.getStdout
-  loop (← IO.getStdin) out
+  loop (← IO.getStdin) out {}
